@@ -1,0 +1,41 @@
+//go:build verif
+
+// Contracts for package register (typed shortcuts for plugin registration), checked by /verif/govc. Comment-only: no code.
+package register
+
+// Every shortcut registers under the interface type it names, with the given name, constructor and optional default config.
+//@ func RegisterPtr
+//@ props C18
+//@ may_panic true
+//@ at call plugin.Register assert [type-of-the-pointer-and-the-given-arguments] arg(pluginType) == result_of(plugin.PtrType, 0) && arg(name) == name0 && arg(newPluginImpl) == newPlugin0 && arg(defaultConfigOptional) == defaultConfigOptional0
+//@ at call plugin.PtrType assert arg(ptr) == ptr0
+
+//@ func Provider
+//@ props C18
+//@ may_panic true
+//@ at call RegisterPtr assert [provider-interface] typeis(arg(ptr), *core.Provider) && arg(name) == name0 && arg(newPlugin) == newProvider0 && arg(defaultConfigOptional) == defaultConfigOptional0
+
+//@ func Limiter
+//@ props C18
+//@ may_panic true
+//@ at call RegisterPtr assert [schedule-interface] typeis(arg(ptr), *core.Schedule) && arg(name) == name0 && arg(newPlugin) == newLimiter0 && arg(defaultConfigOptional) == defaultConfigOptional0
+
+//@ func Gun
+//@ props C18
+//@ may_panic true
+//@ at call RegisterPtr assert [gun-interface] typeis(arg(ptr), *core.Gun) && arg(name) == name0 && arg(newPlugin) == newGun0 && arg(defaultConfigOptional) == defaultConfigOptional0
+
+//@ func Aggregator
+//@ props C18
+//@ may_panic true
+//@ at call RegisterPtr assert [aggregator-interface] typeis(arg(ptr), *core.Aggregator) && arg(name) == name0 && arg(newPlugin) == newAggregator0 && arg(defaultConfigOptional) == defaultConfigOptional0
+
+//@ func DataSource
+//@ props C18
+//@ may_panic true
+//@ at call RegisterPtr assert [data-source-interface] typeis(arg(ptr), *core.DataSource) && arg(name) == name0 && arg(newPlugin) == newDataSource0 && arg(defaultConfigOptional) == defaultConfigOptional0
+
+//@ func DataSink
+//@ props C18
+//@ may_panic true
+//@ at call RegisterPtr assert [data-sink-interface] typeis(arg(ptr), *core.DataSink) && arg(name) == name0 && arg(newPlugin) == newDataSink0 && arg(defaultConfigOptional) == defaultConfigOptional0
